@@ -198,10 +198,14 @@ def coq_project():
     (COQ / "extracted").mkdir(exist_ok=True)
 
 
-def coq_make(targets, timeout=3000):
-    """make -k the given .vo targets (paths relative to coq/).  Returns (ok, output)."""
-    with Lock(COQ / ".lock"):
+def coq_make(targets, timeout=3000, locked=False):
+    """make -k the given .vo targets (paths relative to coq/).  Returns (ok, output).
+    locked=True: the caller already holds coq/.lock."""
+    if locked:
         coq_project()
+    else:
+        with Lock(COQ / ".lock"):
+            coq_project()
     # make itself runs unlocked so that a long proof build of one property does not block the others
     # every coqc runs under its own time limit: one looping file cannot stall the whole build
     p = sh(["timeout", str(timeout), "make", "-k", "-j", str(NCPU), "COQC=timeout %d coqc" % COQC_FILE_TIMEOUT] + list(targets), cwd=COQ)
@@ -352,6 +356,34 @@ def coq_props(pid, timeout=3000):
         res["error"] = "theorems not discharged: " + ", ".join(
             f"{t['name']} ({t['status']})" for t in thms if t["status"] not in ("closed", "axioms-ok"))
     return res
+
+
+def coqchk_cone(rep, pid, timeout=3000):
+    """Thorough tier: Coq's independent checker re-checks the compiled Props/Properties_<pid>.vo and every file
+    it depends on (standard library included) and lists the axioms of everything loaded (a superset of what
+    Print Assumptions reports per theorem).  Runs under coq/.lock so that no translator run rewrites Gen/*.vo
+    underneath; a rejected file or an axiom outside the standard library's is a broken proof obligation."""
+    if rep.proof_error:
+        return
+    t0 = time.time()
+    with Lock(COQ / ".lock"):
+        coq_make([f"theories/Props/Properties_{pid}.vo"], locked=True)
+        p = sh(["timeout", str(timeout), "coqchk", "-silent", "-o", "-Q", "theories", "Carquet",
+                f"Carquet.Props.Properties_{pid}"], cwd=COQ)
+    txt = p.stdout + p.stderr
+    m = re.search(r"\* Axioms:(.*?)\n\s*\n", txt + "\n\n", re.S)
+    axs = [a.strip() for a in (m.group(1).split("\n") if m else []) if a.strip() and a.strip() != "<none>"]
+    bad = [a for a in axs if not a.startswith(ALLOWED_AXIOM_PREFIXES)]
+    unsafe = [l.strip() for l in txt.splitlines() if l.startswith("* ") and not l.startswith(("* Axioms", "* Theory")) and "<none>" not in l and ":" in l]
+    ok = p.returncode == 0 and "CONTEXT SUMMARY" in txt and m is not None
+    rep.cov["coqchk"] = {"accepted": bool(ok), "axioms_of_all_loaded_files": axs, "seconds": round(time.time() - t0, 1),
+                         "cmd": f"coqchk -silent -o -Q theories Carquet Carquet.Props.Properties_{pid}"}
+    if not ok:
+        rep.broken.append(("proof", f"coqchk does not accept the compiled proofs of {pid}: " + txt[-400:], None))
+    elif bad:
+        rep.broken.append(("proof", f"coqchk lists axioms outside Coq's standard library in the cone of {pid}: " + ", ".join(bad[:5]), None))
+    elif unsafe:
+        rep.broken.append(("proof", f"coqchk reports assumed guard/positivity/universe checks in the cone of {pid}: " + "; ".join(unsafe[:3]), None))
 
 
 def build_runner(engine):
@@ -632,6 +664,8 @@ def prelude(rep, pid):
     rep.cov["spec_independence_violations"] = dep
     if dep:
         rep.broken.append(("proof", "a specification file imports a model: " + "; ".join(dep[:5]), None))
+    if rep.tier == "thorough":
+        coqchk_cone(rep, pid)
     return lib
 
 
